@@ -41,15 +41,21 @@ class P(Prop):
                 "Parameters of the model (taken from the real run): spatial_index.neighborhood results, HMM-decoded state indices")
     rule = ("grid-like and random networks on an integer lattice and on two-decimal coordinates (oblique / horizontal / vertical, 2..4-vertex edges, arbitrary "
             "edge and node ids), spatial index of several cell sizes and margins, tracks of 1..7 observations on / near / far from the network (outside the index "
-            "included), several radii and noise values. non-trivial = at least one observation has a non-flag candidate")
-    trusted = ["the candidate edge numbers (SpatialIndex.neighborhood) and the decoded indices (HMM.estimate) are inputs of the model, captured from the real call"]
+            "included), several radii and noise values; SESSION stream: on one network / index object, 1..3 calls of mapOnNetwork, the first on a "
+            "TrackCollection of 2..3 tracks of different lengths that are not co-located, later calls on collections or bare tracks, tracks matched again "
+            "(their obs_noise / hmm_inference / hmm_cost columns already exist), user features with those names, radius and noise changing between calls; "
+            "the oracle is applied to every track of every call through its own hmm_inference column, and the candidate lists the decoder is given for "
+            "each track (captured at HMM.estimate) are compared with the model's. non-trivial = at least one observation within the radius of an edge")
+    trusted = ["the candidate edge numbers (SpatialIndex.neighborhood) and the decoded indices (HMM.estimate) are inputs of the model, captured from the real call "
+               "(instance / class attributes wrapped for the duration of a case, no source hook); the candidate lists the decoder receives for each track are read through "
+               "the HMM's own state function at the entry of HMM.estimate"]
 
     def setup(self):
         import tracklib
-        from tracklib import Obs, ObsTime, ENUCoords, Track, Network, Node, Edge, SpatialIndex, computeAbsCurv
+        from tracklib import Obs, ObsTime, ENUCoords, Track, TrackCollection, Network, Node, Edge, SpatialIndex, computeAbsCurv
         from tracklib.algo import mapping
         self.tl = dict(Obs=Obs, ObsTime=ObsTime, E=ENUCoords, Track=Track, Network=Network, Node=Node, Edge=Edge,
-                       SI=SpatialIndex, curv=computeAbsCurv, mapping=mapping)
+                       SI=SpatialIndex, curv=computeAbsCurv, mapping=mapping, TC=TrackCollection)
         self._cache = {}
 
     # ------------------------------------------------------------------ generators
@@ -75,6 +81,9 @@ class P(Prop):
             c["track"] = c["track"][:2] + [[c["track"][0][0] + 9000.0, c["track"][0][1] + 500.0], [c["track"][0][0] + 19000.0, c["track"][0][1]]]
             c["stream"] = "farjump"
             out.append(c)
+        # sessions: collections of several tracks, several calls on the same objects, re-matched tracks
+        for k in range(6000 if tier == "thorough" else 900):
+            out.append(self.random_session(rng, ["grid", "random", "decimal"][k % 3]))
         return out
 
     def coord(self, rng, stream):
@@ -155,9 +164,15 @@ class P(Prop):
         if rng.random() < 0.1 and 0.02 < ax / ay < 50:
             res = None
         radius = rng.choice([0.5, 1.0, 2.0, 3.0, 5.5, 10.0])
+        track = self.gen_track(rng, stream, edges, radius, ax)
+        return {"kind": "net", "stream": stream, "edges": edges, "res": res, "margin": margin, "track": track,
+                "radius": radius, "noise": rng.choice([1.0, 5.0, 50.0])}
+
+    def gen_track(self, rng, stream, edges, radius, ax, home=None, avoid_vertical=False):
+        """1..7 observations on / near / far from / outside the network; `home` = edges the track stays around"""
         track = []
         for _ in range(rng.randint(1, 7)):
-            e = rng.choice(edges)
+            e = rng.choice(home if home else edges)
             i = rng.randrange(len(e["g"]) - 1)
             (x1, y1), (x2, y2) = e["g"][i], e["g"][i + 1]
             t = rng.choice([0.0, 0.25, 0.5, 0.75, 1.0, rng.random()])
@@ -175,25 +190,82 @@ class P(Prop):
                 p = [round(p[0] * 4) / 4, round(p[1] * 4) / 4]
             elif stream == "decimal":
                 p = [round(p[0], 2), round(p[1], 2)]
+            if avoid_vertical:
+                # keep the listed defect D16 (observation with the abscissa of a vertical segment) rare in the session
+                # streams, whose purpose is the state carried from one track / call to the next
+                for _ in range(4):
+                    if any(g[j][0] == g[j + 1][0] == p[0] for ed in edges for g in [ed["g"]] for j in range(len(g) - 1)):
+                        p[0] = p[0] + (0.01 if stream == "decimal" else 0.125)
             track.append([float(p[0]), float(p[1])])
-        return {"kind": "net", "stream": stream, "edges": edges, "res": res, "margin": margin, "track": track,
-                "radius": radius, "noise": rng.choice([1.0, 5.0, 50.0])}
+        return track
+
+    def random_session(self, rng, stream):
+        """several mapOnNetwork calls on the SAME network / index objects: collections of 2..3 tracks that are not
+        co-located, tracks matched again in a later call (their obs_noise / hmm_* columns already exist), user
+        features with those names, radii and noise changing from call to call"""
+        base = self.random_case(rng, stream)
+        edges = base["edges"]
+        xs = [p[0] for e in edges for p in e["g"]]
+        ax = max(xs) - min(xs)
+        ntr = rng.randint(2, 4)
+        tracks = []
+        for k in range(ntr):
+            home = [rng.choice(edges)] if rng.random() < 0.6 else None
+            tracks.append(self.gen_track(rng, stream, edges, base["radius"], ax, home=home, avoid_vertical=rng.random() < 0.9))
+        if rng.random() < 0.15:
+            tracks[rng.randrange(ntr)] = [[p[0] + ax + 60.0, p[1] - 40.0] for p in tracks[0]]      # a track entirely off the network
+        calls = []
+        ids = list(range(ntr))
+        first = rng.sample(ids, rng.randint(2, min(3, ntr)))
+        calls.append({"t": first, "radius": base["radius"], "noise": base["noise"], "bare": False})
+        for _ in range(rng.randint(0, 2)):
+            m = rng.randint(1, min(3, ntr))
+            t = rng.sample(ids, m)
+            calls.append({"t": t, "radius": rng.choice([base["radius"], 0.5, 1.0, 2.0, 3.0, 5.5, 10.0]),
+                          "noise": rng.choice([1.0, 5.0, 50.0]), "bare": m == 1 and rng.random() < 0.6})
+        if rng.random() < 0.3:
+            calls.reverse()
+        pre = {}
+        for k in range(ntr):
+            if rng.random() < 0.25:
+                pre[str(k)] = rng.choice([{"obs_noise": 3.0}, {"hmm_inference": 0.0}, {"hmm_cost": 0.0, "speed": 1.5},
+                                          {"speed": 2.5}, {"obs_noise": 20.0, "hmm_inference": 0.0, "hmm_cost": 0.0}])
+        return {"kind": "session", "stream": "session-" + stream, "edges": edges, "res": base["res"], "margin": base["margin"],
+                "tracks": tracks, "calls": calls, "pre": pre}
+
+    @staticmethod
+    def as_session(case):
+        """every case is run as a session; the single-track kinds are one call with a bare Track"""
+        if case["kind"] == "session":
+            return case
+        return {"tracks": [case["track"]], "pre": {},
+                "calls": [{"t": [0], "radius": case["radius"], "noise": case["noise"], "bare": True}]}
 
     def describe(self, case):
         orient = set()
         for e in case["edges"]:
-            for s in segments([p[0] for p in e["g"]], [p[1] for p in e["g"]]):
-                orient.add("z" if degenerate(s) else "v" if s[0] == s[2] else "h" if s[1] == s[3] else "o")
-        return {"kind": case["kind"], "stream": case.get("stream", "?"), "edges": len(case["edges"]), "obs": len(case["track"]),
+            for sg in segments([p[0] for p in e["g"]], [p[1] for p in e["g"]]):
+                orient.add("z" if degenerate(sg) else "v" if sg[0] == sg[2] else "h" if sg[1] == sg[3] else "o")
+        S = self.as_session(case)
+        seen, rematch = set(), False
+        for c in S["calls"]:
+            rematch = rematch or any(t in seen for t in c["t"])
+            seen.update(c["t"])
+        return {"kind": case["kind"], "stream": case.get("stream", "?"), "edges": len(case["edges"]),
+                "obs": sum(len(t) for t in S["tracks"]), "calls": len(S["calls"]),
+                "max_tracks_per_call": max(len(c["t"]) for c in S["calls"]), "rematch": rematch, "pre_features": bool(S.get("pre")),
                 "orient": "".join(sorted(orient)), "multi_vertex": any(len(e["g"]) > 2 for e in case["edges"])}
 
     def nontrivial(self, case):
         # at least one observation within the radius of some edge (exact geometry)
-        for q in case["track"]:
-            for e in case["edges"]:
-                X, Y = [p[0] for p in e["g"]], [p[1] for p in e["g"]]
-                if min(seg_d2(fr(q[0]), fr(q[1]), *s) for s in segments(X, Y)) < fr(case["radius"]) ** 2:
-                    return True
+        S = self.as_session(case)
+        for c in S["calls"]:
+            for ti in c["t"]:
+                for q in S["tracks"][ti]:
+                    for e in case["edges"]:
+                        X, Y = [p[0] for p in e["g"]], [p[1] for p in e["g"]]
+                        if min(seg_d2(fr(q[0]), fr(q[1]), *sg) for sg in segments(X, Y)) < fr(c["radius"]) ** 2:
+                            return True
         return False
 
     # ------------------------------------------------------------------ implementation
@@ -219,21 +291,31 @@ class P(Prop):
         except Exception:
             return ["?", repr(s)[:80]]
 
+    @staticmethod
+    def snap_track(o):
+        return {"pos": [[b.position.getX(), b.position.getY(), b.position.getZ()] for b in o],
+                "t": [str(b.timestamp) for b in o], "n": o.size(), "features": list(o.getListAnalyticalFeatures())}
+
     def impl(self, case):
+        """runs the whole session on ONE network / index and the same Track objects; output: per call, per track"""
         T = self.tl
         mp = T["mapping"]
+        S = self.as_session(case)
         key = json.dumps(case, sort_keys=True)
         try:
             net = self.build(case)
         except BaseException as e:   # building the network / its index is a precondition, not the property
             if isinstance(e, KeyboardInterrupt):
                 raise
-            self._cache[key] = ([], None)
+            self._cache[key] = []
             return {"invalid": "network or spatial index cannot be built: %s %s" % (err_kind(e), str(e)[:100])}
-        trk = T["Track"]([T["Obs"](T["E"](x, y, 0), T["ObsTime"].readUnixTime(1000 + 10 * i)) for i, (x, y) in enumerate(case["track"])])
-        before = {"pos": [[o.position.getX(), o.position.getY(), o.position.getZ()] for o in trk],
-                  "t": [str(o.timestamp) for o in trk], "n": trk.size(), "features": list(trk.getListAnalyticalFeatures())}
-        captured = []
+        tracks = []
+        for ti, pts in enumerate(S["tracks"]):
+            trk = T["Track"]([T["Obs"](T["E"](x, y, 0), T["ObsTime"].readUnixTime(1000 * (ti + 1) + 10 * i)) for i, (x, y) in enumerate(pts)])
+            for name, val in sorted((S.get("pre") or {}).get(str(ti), {}).items()):
+                trk.createAnalyticalFeature(name, val)
+            tracks.append(trk)
+        captured, snaps, done = [], [], []
         si = net.spatial_index
         orig = si.neighborhood
 
@@ -243,35 +325,73 @@ class P(Prop):
                 captured.append(None if r is None else [int(v) for v in r])
             return r
         si.neighborhood = wrap
+        HMM = mp.HMM
+        orig_est = HMM.estimate
+
+        def est(self_, track, *a, **kw):
+            # what the decoder is given for THIS track: S(track, k) for every epoch (mapping.STATES[k])
+            try:
+                snaps.append([list(self_.S(track, k)) for k in range(len(track))])
+            except BaseException as e:
+                snaps.append(None)
+            r = orig_est(self_, track, *a, **kw)
+            done.append(True)
+            return r
+        HMM.estimate = est
         saved = getattr(mp, "STATES", None)
-        err = None
+        calls_out = []
         try:
-            mp.mapOnNetwork(trk, net, gps_noise=case["noise"], search_radius=case["radius"])
-        except BaseException as e:
-            if isinstance(e, KeyboardInterrupt):
-                raise
-            err = {"err": err_kind(e), "detail": str(e)[:200]}
-        states = getattr(mp, "STATES", None) or []
-        rows = [[self.state_row(s) for s in L] for L in states]
-        out = {"cand": captured, "states": rows}
-        if err:
-            out.update(err)
-            self._cache[key] = (captured, None)
-        else:
-            idx, inf = [], []
-            for k in range(trk.size()):
-                v = trk["hmm_inference", k]
-                j = [i for i, s in enumerate(states[k]) if s is v] if k < len(states) else []
-                idx.append(j[0] if j else -1)
-                inf.append(self.state_row(v))
-            out.update({"idx": idx, "inf": inf,
-                        "pos_after": [[o.position.getX(), o.position.getY(), o.position.getZ()] for o in trk],
-                        "t_after": [str(o.timestamp) for o in trk], "n_after": trk.size(),
-                        "features": list(trk.getListAnalyticalFeatures()), "before": before,
-                        "nedges": net.getNumberOfEdges()})
-            self._cache[key] = (captured, idx)
-        if saved is not None:
-            mp.STATES = saved
+            for call in S["calls"]:
+                objs = [tracks[i] for i in call["t"]]
+                before = [self.snap_track(o) for o in objs]
+                del captured[:], snaps[:], done[:]
+                arg = objs[0] if (call.get("bare") and len(objs) == 1) else self.tl["TC"](objs)
+                err = None
+                try:
+                    mp.mapOnNetwork(arg, net, gps_noise=call["noise"], search_radius=call["radius"])
+                except BaseException as e:
+                    if isinstance(e, KeyboardInterrupt):
+                        raise
+                    err = {"err": err_kind(e), "detail": str(e)[:200]}
+                touts, pos = [], 0
+                for j, o in enumerate(objs):
+                    n = o.size()
+                    c = captured[pos:pos + n]
+                    pos += len(c)
+                    if j < len(done):
+                        states = snaps[j] or []
+                        idx, inf = [], []
+                        for k in range(n):
+                            v = o["hmm_inference", k]
+                            hit = [i for i, st in enumerate(states[k]) if st is v] if k < len(states) else []
+                            idx.append(hit[0] if hit else -1)
+                            inf.append(self.state_row(v))
+                        after = self.snap_track(o)
+                        touts.append({"ti": call["t"][j], "cand": c, "states": [[self.state_row(st) for st in L] for L in states],
+                                      "idx": idx, "inf": inf, "pos_after": after["pos"], "t_after": after["t"], "n_after": after["n"],
+                                      "features": after["features"], "before": before[j], "nedges": net.getNumberOfEdges()})
+                    elif err and j == len(done):
+                        states = snaps[j] if j < len(snaps) and snaps[j] is not None else (getattr(mp, "STATES", None) or [])
+                        if j < len(snaps) and snaps[j] is None:
+                            states = []
+                        t = {"ti": call["t"][j], "cand": c, "states": [[self.state_row(st) for st in L] for L in states]}
+                        t.update(err)
+                        touts.append(t)
+                co = {"tracks": touts, "global_states_len": len(getattr(mp, "STATES", None) or [])}
+                if err:
+                    co.update(err)
+                calls_out.append(co)
+                if err:
+                    break
+        finally:
+            HMM.estimate = orig_est
+            if saved is not None:
+                mp.STATES = saved
+        self._cache[key] = [(ci, t) for ci, co in enumerate(calls_out) for t in co["tracks"] if t["cand"]]
+        out = {"calls": calls_out}
+        if calls_out and "err" in calls_out[-1]:
+            out["err"] = calls_out[-1]["err"]
+            out["detail"] = calls_out[-1].get("detail")
         return out
 
     # ------------------------------------------------------------------ model
@@ -279,19 +399,21 @@ class P(Prop):
         key = json.dumps(case, sort_keys=True)
         if key not in self._cache:
             self.impl(case)
-        cand, idx = self._cache[key]
-        n = len(cand)
-        if n == 0:
-            return []
-        track = case["track"][:n]
+        S = self.as_session(case)
         es = "|".join(";".join("%s,%s" % (fbits(p[0]), fbits(p[1])) for p in e["g"]) for e in case["edges"])
-        tr = ";".join("%s,%s" % (fbits(p[0]), fbits(p[1])) for p in track)
-        cs = ";".join("n" if c is None else ("_" if not c else ",".join(str(v) for v in c)) for c in cand)
-        if idx is None or any(i < 0 for i in idx) or len(idx) != n:
-            ix = "x"
-        else:
-            ix = ",".join(str(i) for i in idx)
-        return ["C10.match %s %s %s %s %s" % (fbits(case["radius"]), es, tr, cs, ix)]
+        lines = []
+        for ci, t in self._cache[key]:
+            cand, idx = t["cand"], t.get("idx")
+            n = len(cand)
+            track = S["tracks"][t["ti"]][:n]
+            tr = ";".join("%s,%s" % (fbits(p[0]), fbits(p[1])) for p in track)
+            cs = ";".join("n" if c is None else ("_" if not c else ",".join(str(v) for v in c)) for c in cand)
+            if idx is None or any(i < 0 for i in idx) or len(idx) != n:
+                ix = "x"
+            else:
+                ix = ",".join(str(i) for i in idx)
+            lines.append("C10.match %s %s %s %s %s" % (fbits(S["calls"][ci]["radius"]), es, tr, cs, ix))
+        return lines
 
     ERR = {"zerodiv": "err:zerodiv", "unbound": "err:UnboundLocalError", "index": "err:index"}
 
@@ -305,21 +427,32 @@ class P(Prop):
             rows.append([bitsf(a[0]), bitsf(a[1]), int(a[2]), bitsf(a[3]), bitsf(a[4])])
         return rows
 
-    def decode(self, case, replies):
-        if not replies:
-            return {"states": [], "inf": []}
-        r = replies[0].split()
+    def decode_one(self, reply):
+        r = reply.split()
         if r[0] == "err":
             return {"err": self.ERR[r[1]]}
         if r[0] != "ok":
-            raise ValueError(replies[0])
+            raise ValueError(reply)
         states = [self.parse_states(t) for t in r[1].split("|")]
         inf = self.parse_states(r[3]) if r[3] != "_" else None
         return {"states": states, "inf": inf}
 
+    def decode(self, case, replies):
+        return {"tracks": [self.decode_one(r) for r in replies]}
+
     def compare(self, case, impl_out, model_out):
         if "invalid" in impl_out:
             return None
+        touts = [(ci, t) for ci, co in enumerate(impl_out["calls"]) for t in co["tracks"] if t["cand"]]
+        if len(touts) != len(model_out["tracks"]):
+            return "%d matched tracks on the implementation side, %d model replies" % (len(touts), len(model_out["tracks"]))
+        for (ci, t), m in zip(touts, model_out["tracks"]):
+            w = self.compare_track(t, m)
+            if w:
+                return "call %d, track %d: %s" % (ci, t["ti"], w)
+        return None
+
+    def compare_track(self, impl_out, model_out):
         if "err" in impl_out:
             if impl_out["err"] in ("err:zerodiv", "err:UnboundLocalError"):
                 if model_out.get("err") != impl_out["err"]:
@@ -335,7 +468,8 @@ class P(Prop):
         if "err" in model_out:
             return "model raised %s, impl returned" % model_out["err"]
         if not close(impl_out["states"], model_out["states"], self.rel_tol):
-            return "STATES differ: impl=%s model=%s" % (json.dumps(impl_out["states"])[:400], json.dumps(model_out["states"])[:400])
+            return "the candidate lists given to the decoder differ from the model's STATES: impl=%s model=%s" % (
+                json.dumps(impl_out["states"])[:400], json.dumps(model_out["states"])[:400])
         if model_out["inf"] is None:
             return "hmm_inference holds an object that is not one of STATES[k] (indices %s)" % impl_out.get("idx")
         if not close(impl_out["inf"], model_out["inf"], self.rel_tol):
@@ -388,33 +522,67 @@ class P(Prop):
             return "observation %d: distance to the source node %r is not the along-edge abscissa of the assigned point" % (k, d0)
         return None
 
-    def spec(self, case, out):
-        if "invalid" in out:
-            return None      # outside the domain: no network / index to match on
-        if "err" in out:
-            return "mapOnNetwork raised %s" % out["err"]
+    def spec_track(self, pc, out):
+        """the property for one track of one call; pc = {"edges", "track", "radius"}"""
         b = out["before"]
-        n = len(case["track"])
+        n = len(pc["track"])
         if out["n_after"] != n or b["n"] != n:
             return "the track has %d observations after map-matching, %d before" % (out["n_after"], n)
         if out["pos_after"] != b["pos"]:
             return "positions changed: before %s after %s" % (b["pos"][:4], out["pos_after"][:4])
         if out["t_after"] != b["t"]:
             return "timestamps changed"
-        if sorted(out["features"]) != sorted(b["features"] + ["obs_noise", "hmm_inference", "hmm_cost"]):
-            return "feature columns after map-matching: %s" % out["features"]
+        if sorted(out["features"]) != sorted(set(b["features"] + ["obs_noise", "hmm_inference", "hmm_cost"])):
+            return "feature columns after map-matching: %s (before: %s)" % (out["features"], b["features"])
         if len(out["inf"]) != n:
             return "hmm_inference has %d entries for %d observations" % (len(out["inf"]), n)
         for k in range(n):
-            w = self.check_state(case, k, out["inf"][k])
+            w = self.check_state(pc, k, out["inf"][k])
             if w:
                 return w
         return None
 
+    def walk(self, case, out):
+        """(call index, pseudo-case, track output) in the order of the session"""
+        S = self.as_session(case)
+        for ci, co in enumerate(out["calls"]):
+            for t in co["tracks"]:
+                yield ci, co, {"edges": case["edges"], "track": S["tracks"][t["ti"]], "radius": S["calls"][ci]["radius"]}, t
+
+    def spec(self, case, out):
+        if "invalid" in out:
+            return None      # outside the domain: no network / index to match on
+        S = self.as_session(case)
+        multi = case["kind"] == "session"
+        for ci, co, pc, t in self.walk(case, out):
+            where = ("call %d, track %d: " % (ci, t["ti"])) if multi else ""
+            if "err" in t:
+                return where + "mapOnNetwork raised %s" % t["err"]
+            w = self.spec_track(pc, t)
+            if w:
+                return where + w
+        for ci, co in enumerate(out["calls"]):
+            if "err" in co:
+                return "call %d: mapOnNetwork raised %s" % (ci, co["err"])
+            if len(co["tracks"]) != len(S["calls"][ci]["t"]):
+                return "call %d: %d of %d tracks were map-matched" % (ci, len(co["tracks"]), len(S["calls"][ci]["t"]))
+        if len(out["calls"]) != len(S["calls"]):
+            return "%d of %d calls ran" % (len(out["calls"]), len(S["calls"]))
+        return None
+
     # ------------------------------------------------------------------ known findings
     def classify(self, case, impl_out, msg):
-        if not msg or not impl_out or "err" not in impl_out:
+        if not msg or not impl_out or "err" not in impl_out or "calls" not in impl_out:
             return None
+        # the first failure of the session must be the exception, and it must be of a listed kind
+        for ci, co, pc, t in self.walk(case, impl_out):
+            if "err" in t:
+                return self.classify_track(pc, t)
+            if self.spec_track(pc, t):
+                return None
+        return None
+
+    def classify_track(self, case, impl_out):
         cand = impl_out.get("cand") or []
         if impl_out["err"] == "err:zerodiv" and cand and cand[-1]:
             # D16 reached through __projOnTrack: the observation being processed has the abscissa of a vertical
@@ -439,20 +607,41 @@ class P(Prop):
 
     # ------------------------------------------------------------------ shrinking / search
     def shrink(self, case):
-        t = case["track"]
-        if len(t) > 1:
-            for k in range(len(t)):
-                yield dict(case, track=t[:k] + t[k + 1:])
         es = case["edges"]
+        if case["kind"] == "session":
+            calls, tracks = case["calls"], case["tracks"]
+            if len(calls) > 1:
+                for k in range(len(calls)):
+                    yield dict(case, calls=calls[:k] + calls[k + 1:])
+            for k, c in enumerate(calls):
+                if len(c["t"]) > 1:
+                    for j in range(len(c["t"])):
+                        yield dict(case, calls=calls[:k] + [dict(c, t=c["t"][:j] + c["t"][j + 1:])] + calls[k + 1:])
+            if case.get("pre"):
+                yield dict(case, pre={})
+            for ti, t in enumerate(tracks):
+                if len(t) > 1:
+                    for k in range(len(t)):
+                        yield dict(case, tracks=tracks[:ti] + [t[:k] + t[k + 1:]] + tracks[ti + 1:])
+        else:
+            t = case["track"]
+            if len(t) > 1:
+                for k in range(len(t)):
+                    yield dict(case, track=t[:k] + t[k + 1:])
         if len(es) > 1:
+            used = set()
             for k in range(len(es)):
-                yield dict(case, edges=es[:k] + es[k + 1:], res=None if case["res"] is None else case["res"])
+                yield dict(case, edges=es[:k] + es[k + 1:])
         for k, e in enumerate(es):
             if len(e["g"]) > 2:
                 for j in range(1, len(e["g"]) - 1):
                     yield dict(case, edges=es[:k] + [dict(e, g=e["g"][:j] + e["g"][j + 1:])] + es[k + 1:])
 
     def mutate(self, case, rng):
+        if case["kind"] == "session":
+            for dx, dy in ((0.5, 0), (0, 0.5)):
+                yield dict(case, tracks=[[[p[0] + dx, p[1] + dy] for p in t] for t in case["tracks"]])
+            return
         for dx, dy in ((0.5, 0), (0, 0.5), (-0.5, 0), (0, -0.5)):
             yield dict(case, track=[[p[0] + dx, p[1] + dy] for p in case["track"]])
         for r in (0.5, 1.0, 2.0, 5.5):
